@@ -126,6 +126,37 @@ def run(tier, seed):
             if len(ck.samples) < 3:
                 ck.sample({'tree': sc.label, 'patterns': [i[0] for i in sc.items][:3]})
             scs.append(sc)
+    # structured range inputs: min / max / value of one type, equal or adjacent, one of them with a seconds or fraction suffix,
+    # a trailing blank, a sign - whatever the strings are, the range pseudo-classes answer and never raise
+    from props import C18 as _C18
+    from bs4 import BeautifulSoup as _BS
+    for _ in range(40 if tier == 'quick' else 600):
+        soup = _BS('<html><body><form></form></body></html>', 'html.parser')
+        for _k in range(8):
+            itype = rnd.choice(['time', 'datetime-local', 'date', 'month', 'week', 'number', 'range', 'time', 'datetime-local'])
+            v = _C18.gen_value(rnd, itype)
+            vals = [v, v, _C18.gen_value(rnd, itype, near=v), _C18.gen_value(rnd, itype, near=v)]
+            sfx = rnd.choice([':00', ':15', ':59.5', ':00.000', '.5', ' ', 'Z', ':60', ''])
+            j_ = rnd.randrange(len(vals))
+            vals[j_] = vals[j_] + sfx
+            rnd.shuffle(vals)
+            t = soup.new_tag('input')
+            t.attrs['type'] = itype
+            for nm_, vv in zip(rnd.sample(['min', 'max', 'value'], rnd.choice([2, 3, 3])), vals):
+                t.attrs[nm_] = vv
+            soup.form.append(t)
+        for s in (':in-range', ':out-of-range', 'input:not(:in-range):not(:out-of-range)'):
+            try:
+                with warnings.catch_warnings():
+                    warnings.simplefilter('ignore')
+                    sv.select(s, soup)
+                ck.count(('ok', 'range-battery', s))
+            except RecursionError:
+                raise
+            except Exception as ex:
+                key = 'C18-week-year-range' if is_known(ex, soup) else None
+                ck.violation(f'select({s!r}) raised {type(ex).__name__}: {str(ex)[:100]}',
+                             {'pattern': s, 'op': 'select', 'markup': str(soup)[:2500], 'exception': type(ex).__name__}, key=key)
     # empty / element-less documents, detached fragments, several top-level nodes
     from bs4 import BeautifulSoup
     for mk, parser in (('', 'html.parser'), ('text only', 'html.parser'), ('<!-- c -->', 'html.parser'), ('<!DOCTYPE html>', 'html.parser'),
